@@ -25,7 +25,8 @@ RULE = ("cases = calls of ~100 public operations across all modules (field arith
         "Offline checker over the recorded event logs of all histories (several per process, and one fresh interpreter per shard with "
         "PYTHONHASHSEED varied): (i) every registry digest equals the import-time digest and is the same in every interpreter, (ii) argument "
         "digests unchanged, (iii) all events with the same (operation, argument digest) have one result digest. distinct = distinct "
-        "(operation, arguments); non-trivial = pairs observed at >= 2 different positions / histories")
+        "(operation, arguments); non-trivial = pairs observed at >= 2 different positions / histories"
+        " The pool includes operations that raise in the middle of a product and calls cut short by a timer signal; every second shard adds a CONCURRENT history (4 threads drawing from the pool, then all hashing operations in rotated order) whose events go to the same offline checker.")
 ASSUMPTIONS = ["value digests read raw attributes (n, coeffs, modulus_coeffs) and tuple/list/bytes contents; the memoised sgn0 is not part of an element's value"]
 SHARD_ENV = lambda shard: {"PYTHONHASHSEED": str([0, 1, 2, 12345, 987654321][shard % 5])}   # noqa: E731
 
